@@ -145,23 +145,32 @@ def addPending (pending : List Nat) (executed : Map Nat) : List Nat → List Nat
     if t ∈ pending ∨ (executed t).isSome then addPending pending executed ts
     else addPending (pending ++ [t]) executed ts
 
-/-- `blockChain.remove(block)`: mark, three deletes, head back to the parent,
-    un-mark the transactions, erase the mark. Returns false (mark left behind)
-    when the parent is not in the hash index. -/
-def remove (s : St) (x : Block) : St × Bool :=
+/-- first half of `blockChain.remove(block)`: intent mark, the three deletes, cache evictions -/
+def removeA (s : St) (x : Block) : St :=
   let s := s.writes [.putRemoveMark x, .delBlock x.hash, .delHeight x.height, .delVerify x.height]
-  let s := s.setMem { s.mem with top := upd s.mem.top x.height none,
-                                 verified := s.mem.verified.filter (fun h => h != x.hash) }
+  s.setMem { s.mem with top := upd s.mem.top x.height none,
+                        verified := s.mem.verified.filter (fun h => h != x.hash) }
+
+/-- `TxPool.UnMarkExecuted(block)`: nothing at all for a block without transactions -/
+def unmark (s : St) (x : Block) : St :=
+  if x.txs.isEmpty then s else
+    let s := s.writes (x.txs.map .delExecuted)
+    s.setMem { s.mem with pending := addPending s.mem.pending s.disk.executed x.txs }
+
+/-- second half of `remove`: head back to the parent `p`, un-mark the transactions, erase the mark -/
+def removeB (s : St) (x p : Block) : St :=
+  let s := s.setMem { s.mem with latest := p }
+  let s := s.write (.putCurrent p)
+  let s := unmark s x
+  s.write .delRemoveMark
+
+/-- `blockChain.remove(block)`. Returns false (mark left behind) when the parent is not in the
+    hash index. -/
+def remove (s : St) (x : Block) : St × Bool :=
+  let s := removeA s x
   match s.disk.blocks x.pre with
   | none => (s, false)
-  | some p =>
-    let s := s.setMem { s.mem with latest := p }
-    let s := s.write (.putCurrent p)
-    -- UnMarkExecuted: nothing at all for a block without transactions
-    let s := if x.txs.isEmpty then s else
-      let s := s.writes (x.txs.map .delExecuted)
-      s.setMem { s.mem with pending := addPending s.mem.pending s.disk.executed x.txs }
-    (s.write .delRemoveMark, true)
+  | some p => (removeB s x p, true)
 
 /-- The loop of `removeFromCommonAncestor`: heights `base+n, …, base+1`. -/
 def removeLoop (base : Nat) : Nat → St → St
@@ -188,21 +197,35 @@ def verify (s : St) (b : Block) : St × Bool :=
     else if !b.valid then (s, false)                                       -- checkStates
     else (s.setMem { s.mem with verified := b.hash :: s.mem.verified }, true)
 
-/-- `insertBlock`; `cont` is `addBlockOnChain` for the orphan parked under this block. -/
-def insertBlock (cont : St → Block → St) (s : St) (b : Block) : St × Res :=
-  let s := s.writes [.putAddMark b, .putBlock b, .putHeight b.height b]
-  -- saveStates: cached verification result, else execute again
-  if !(s.mem.verified.contains b.hash) && !b.valid then (s, .failed) else
+/-- `insertBlock` up to `saveStates`: intent mark, hash index, height index -/
+def insertA (s : St) (b : Block) : St :=
+  s.writes [.putAddMark b, .putBlock b, .putHeight b.height b]
+
+/-- `TxPool.MarkExecuted`, disk part: one batch for all receipts (none for an empty block) -/
+def markTxs (s : St) (b : Block) : St :=
+  if b.txs.isEmpty then s else s.write (.putExecuted b.txs b.hash)
+
+/-- memory effects between `MarkExecuted` and `updateLastBlock`: pending container, topBlocks -/
+def poolMem (m : Mem) (b : Block) : Mem :=
+  { m with pending := m.pending.filter (fun t => !(b.txs.contains t)), top := upd m.top b.height (some b) }
+
+/-- `insertBlock` from `saveStates` on: state commit, verify hash, MarkExecuted, topBlocks,
+    recorded head, in-memory head, mark erased -/
+def insertB (s : St) (b : Block) : St :=
   let s := s.writes [.commitState b.hash, .putVerify b.height]
-  -- updateTxPool / MarkExecuted: one batch for all receipts, then the pending container
-  let s := if b.txs.isEmpty then s else s.write (.putExecuted b.txs b.hash)
-  let s := s.setMem { s.mem with pending := s.mem.pending.filter (fun t => !(b.txs.contains t)),
-                                 top := upd s.mem.top b.height (some b) }
-  -- updateLastBlock
+  let s := markTxs s b
+  let s := s.setMem (poolMem s.mem b)
   let s := s.write (.putCurrent b)
   let s := s.setMem { s.mem with latest := b }
-  let s := s.write .delAddMark
-  -- successOnChainCallBack
+  s.write .delAddMark
+
+/-- `insertBlock`; `cont` is `addBlockOnChain` for the orphan parked under this block
+    (`successOnChainCallBack`). -/
+def insertBlock (cont : St → Block → St) (s : St) (b : Block) : St × Res :=
+  let s := insertA s b
+  -- saveStates: cached verification result, else execute again (failure leaves the mark behind)
+  if !(s.mem.verified.contains b.hash) && !b.valid then (s, .failed) else
+  let s := insertB s b
   match s.mem.future b.hash with
   | some f => (cont s f, .succ)
   | none => (s, .succ)
